@@ -40,6 +40,8 @@ fn candidates(i: &Inner, only_objs: Option<&[u8]>, dormant_pool_threads: usize, 
             _ => {}
         }
     }
+    // a pool thread was lost to an injected panic and no scheduling call has been made since
+    let quiet_after_panic = i.quiet_panic_variant && i.panic_clock != 0;
     // (1) calls that have not returned
     for (id, o) in i.ops.iter().enumerate() {
         if o.inv == 0 || o.ret != 0 || o.panicked || o.cancelled || !in_scope(o.obj) {
@@ -83,6 +85,12 @@ fn candidates(i: &Inner, only_objs: Option<&[u8]>, dormant_pool_threads: usize, 
             _ => continue,
         }
         waiting_things += 1;
+        if o.start == 0 && quiet_after_panic {
+            // queued before (or while) a pool thread was lost to the panic, and nothing has been scheduled since the panic finished
+            // unwinding: the library looks at its schedule again (and replaces the thread) at the next scheduling call or wake-up,
+            // which no property requires to exist. (Operations that had started and are suspended do get such a wake-up.)
+            continue;
+        }
         if o.start == 0 {
             // not started
             if let Some(g) = o.waiting_gate {
@@ -109,11 +117,12 @@ fn candidates(i: &Inner, only_objs: Option<&[u8]>, dormant_pool_threads: usize, 
             }
         } else if let Some(g) = o.waiting_gate {
             // resuming needs the context that ran it (a parked sync caller, a polling task) or a pool thread
-            if i.gates[g].open && (pool_capacity || !pool_task(if o.last_poll_task != usize::MAX { o.last_poll_task } else { o.runner_task })) {
+            // (quiet aftermath of a panic: only a wake-up that certainly came after the lost thread was gone is one the library must act on)
+            if i.gates[g].open && (!quiet_after_panic || i.gates[g].opened_in_final) && (pool_capacity || !pool_task(if o.last_poll_task != usize::MAX { o.last_poll_task } else { o.runner_task })) {
                 out.push(Cand { op: Some(id), obj: o.obj, prop: "C06", clause: "wake-lost", inv: o.inv, ret: o.ret, detail: format!("{:?} #{} on o{} is suspended on gate g{} which was opened at t={} but was never resumed", o.kind, id, o.obj, g, i.gates[g].opened_at) });
             }
         }
-        else if o.waiting_self && o.start != 0 {
+        else if o.waiting_self && o.start != 0 && !quiet_after_panic {
             // woke itself during the poll: it is never legitimately waiting
             if pool_capacity || !pool_task(if o.last_poll_task != usize::MAX { o.last_poll_task } else { o.runner_task }) {
                 out.push(Cand { op: Some(id), obj: o.obj, prop: "C06", clause: "wake-lost", inv: o.inv, ret: o.ret, detail: format!("{:?} #{} on o{} woke its own waker during a poll and returned Pending, but was never polled again", o.kind, id, o.obj) });
@@ -238,6 +247,11 @@ fn attribute(w: &Arc<World>, only_objs: Option<&[u8]>, ctx: &str, snap: &[rt::Ta
             let prop = if suspended_obj && (h.prop == "C03" || h.prop == "C04") { "C13" } else { h.prop };
             let clause = if prop == "C13" && h.prop != "C13" { "held-work-never-ran" } else { h.clause };
             w.note(prop, clause, Some(obj), h.op, format!("{} {}", h.detail, qdebug));
+            // a healthy object that stalls (with pool capacity left) in a case where another object's operation panicked:
+            // the panic was not contained
+            if w.with(|i| i.panic_case && i.stats.panics_injected > 0 && !i.objs[obj].expect_panicked && i.objs[obj].panic_injected.is_none()) && matches!(h.prop, "C03" | "C06" | "C07" | "C04") {
+                w.note("C15", "healthy-object-stalled-after-panic", Some(obj), h.op, format!("{} {}", h.detail, qdebug));
+            }
             // the same stuck operation also breaks the promises made about it under other headings
             if let Some(opid) = h.op {
                 let (kind, fut_dropped, accepted) = w.with(|i| (i.ops[opid].kind, i.ops[opid].fut_dropped, i.ops[opid].accepted));
@@ -332,6 +346,9 @@ pub fn final_quiescence(w: &Arc<World>, handles: &[Option<ObjH>]) {
                 // every pool thread is stuck inside a job that waits for work that itself needs a pool thread:
                 // a resource deadlock of the generated program, which no property promises to avoid
                 w.note("SATURATED", "pool-exhausted-by-blocked-jobs", None, None, format!("callers stuck: {}", stages.join(", ")));
+            } else if w.with(|i| i.quiet_panic_variant && i.panic_clock != 0) {
+                // work that was queued when the pool lost a thread to the injected panic, with nothing scheduled afterwards
+                w.note("SATURATED", "queued-when-a-pool-thread-was-lost", None, None, format!("callers stuck: {}", stages.join(", ")));
             } else {
                 w.note("HARNESS", "unexplained-hang", None, None, format!("callers stuck: {}", stages.join(", ")));
             }
@@ -347,7 +364,8 @@ pub fn final_quiescence(w: &Arc<World>, handles: &[Option<ObjH>]) {
                 continue;
             }
             // with no pool thread, leftovers (e.g. the slot jobs of cancelled future_sync calls) stay queued until somebody syncs
-            if pool == 0 || w.with(|i| i.pool_zero) {
+            // (the same goes for a pool that lost its thread to a panic and has not been asked for anything since)
+            if pool == 0 || w.with(|i| i.pool_zero || (i.quiet_panic_variant && i.panic_clock != 0)) {
                 continue;
             }
             let r = h.try_sync(|_p| ());
@@ -486,14 +504,14 @@ pub fn capacity_probe(w: &Arc<World>, handles: &[Option<ObjH>]) {
     if k == 0 {
         return;
     }
-    let started = Arc::new(Sh::new(0usize));
+    let started = Arc::new(Sh::new(vec![false; k]));
     let gate = Arc::new(Sh::new((false, Vec::<vsched::thread::Thread>::new())));
-    for o in healthy.iter().take(k) {
+    for (idx, o) in healthy.iter().take(k).enumerate() {
         let started = started.clone();
         let gate = gate.clone();
         let h = handles[*o].as_ref().unwrap();
         h.desync_raw(Box::new(move || {
-            started.with(|s| *s += 1);
+            started.with(|s| s[idx] = true);
             loop {
                 let open = gate.with(|g| {
                     if !g.0 {
@@ -510,7 +528,7 @@ pub fn capacity_probe(w: &Arc<World>, handles: &[Option<ObjH>]) {
     }
     w.with(|i| i.root_stage = "capacity probe".to_string());
     rt::wait_quiescent();
-    let n = started.with(|s| *s);
+    let flags = started.with(|s| s.clone());
     let waiters = gate.with(|g| {
         g.0 = true;
         std::mem::take(&mut g.1)
@@ -518,8 +536,12 @@ pub fn capacity_probe(w: &Arc<World>, handles: &[Option<ObjH>]) {
     for t in waiters {
         t.unpark();
     }
-    if n != k {
-        w.note("C15", "pool-capacity-reduced", None, None, format!("after the panic, {} blocking jobs on {} healthy objects were scheduled with a pool maximum of {} but only {} started (live pool threads: {})", k, k, max, n, rt::live_named(POOL_THREAD_NAME)));
+    // a probe job that has not started is excused if its queue is legitimately held: an earlier operation of that object is
+    // suspended on a gate that is still closed (that takes no pool thread)
+    let missing: Vec<usize> = healthy.iter().take(k).enumerate().filter(|(idx, o)| !flags[*idx] && !w.with(|i| i.ops.iter().any(|a| a.obj == **o && a.inv != 0 && !a.ended() && !a.cancelled && a.waiting_gate.map(|g| !i.gates[g].open).unwrap_or(false)))).map(|(_, o)| *o).collect();
+    if !missing.is_empty() {
+        let n = flags.iter().filter(|f| **f).count();
+        w.note("C15", "pool-capacity-reduced", None, None, format!("after the panic, {} blocking jobs on {} healthy objects were scheduled with a pool maximum of {} but only {} started and nothing holds the queue of o{:?} (live pool threads: {})", k, k, max, n, missing, rt::live_named(POOL_THREAD_NAME)));
     }
     rt::wait_quiescent();
     finish_if_violated(w);
